@@ -294,6 +294,7 @@ fn decode(t: &mut Tape) -> Case {
     p.broken_guards_permille = 30;
     let big_endian = t.chance(1, 2);
     p.index_gaps_permille = 200;
+    p.nop_placeholders = true;
     let g = gen_fn(t, &p);
     let mut spec = g.spec;
     let mut pool = g.pool;
